@@ -2761,21 +2761,21 @@ type AlterIndex struct {
 //
 //	ALTER SEQUENCE {{.Name | sql}}
 //	{{if .Options}}SET {{.Options | sqlOpt}}{{end}}
-//	{{.RestartCounterWith | sqlOpt}}
 //	{{.SkipRange | sqlOpt}}
 //	{{.NoSkipRange | sqlOpt}}
+//	{{.RestartCounterWith | sqlOpt}}
 type AlterSequence struct {
 	// pos = Alter
-	// end = (NoSkipRange ?? SkipRange ?? RestartCounterWith ?? Options).end
+	// end = (RestartCounterWith ?? NoSkipRange ?? SkipRange ?? Options).end
 
 	Alter token.Pos // position of "ALTER" keyword
 
 	Name    *Path
 	Options *Options // optional
 
-	RestartCounterWith *RestartCounterWith // optional
 	SkipRange          *SkipRange          // optional
 	NoSkipRange        *NoSkipRange        // optional
+	RestartCounterWith *RestartCounterWith // optional
 }
 
 // AlterChangeStream is ALTER CHANGE STREAM statement node.
